@@ -42,6 +42,7 @@ func (server *Server) registerSugarExecutors() {
 			return nil, errors.New("increment or decrement would overflow")
 		}
 		opt := newDefaultSetOption()
+		opt.KEEPTTL = true // INCR/DECR keep the key's time to live
 		_, err = server.userCommandHandler.Set(conn, key, strconv.Itoa(newVal), opt)
 		if err != nil {
 			return nil, err
@@ -65,6 +66,7 @@ func (server *Server) registerSugarExecutors() {
 			newVal = getVal + appendVal
 		}
 		opt := newDefaultSetOption()
+		opt.KEEPTTL = true // APPEND keeps the key's time to live
 		_, err = server.userCommandHandler.Set(conn, key, newVal, opt)
 		if err != nil {
 			return nil, err
